@@ -93,21 +93,31 @@ class Prover:
         if goal is True:
             return "proved", None, 0.0
         t0 = time.time()
-        s = self._solver(timeout_ms)
-        for f in pc:
-            s.add(f)
-        s.add(z3.Not(zbool(goal)))
-        r = s.check()
+        T = timeout_ms or self.timeout_ms
+        r = z3.unknown
+        m = None
+        # unstable queries: several short attempts with different seeds before the long one (unknown is never a verdict)
+        for seed, budget in ((0, T // 6), (1, T // 6), (2, T // 6), (3, T // 2)):
+            s = self._solver(max(budget, 200))
+            if seed:
+                s.set("random_seed", seed)
+            for f in pc:
+                s.add(f)
+            s.add(z3.Not(zbool(goal)))
+            r = s.check()
+            if r != z3.unknown:
+                m = s.model() if (r == z3.sat and want_model) else None
+                break
         dt = time.time() - t0
         self.solver_time += dt
         self.calls += 1
         if r == z3.unsat:
             return "proved", None, dt
         if r == z3.sat:
-            return "failed", (s.model() if want_model else None), dt
+            return "failed", m, dt
         return "unknown", None, dt
 
-    def feasible(self, pc, timeout_ms=2000):
+    def feasible(self, pc, timeout_ms=300):
         t0 = time.time()
         s = self._solver(timeout_ms)
         for f in pc:
